@@ -823,3 +823,706 @@ Check C01_statement_special_nobase : forall dbg hp hpo hd shp shs input sch R,
   | BOutOfFuel => False
   end.
 Print Assumptions C01_statement_special_nobase.
+
+(* ===== the proved classes assembled (task c01asm) ===== *)
+From RU Require Import Proofs.C01_EqAsm.
+
+(* in_proved_class3 = no base (in_proved_nobase3): opaque path | "scheme:/path" | "scheme://authority"
+   (non-special) | special non-file scheme | no scheme (failure on both sides);  base: '#' | '?' | empty
+   reference | opaque-base failure | the three relative-reference classes against a non-special base | a
+   reference with a scheme of its own that makes both sides ignore the base (in_class_abs_base, see the block
+   'references with a scheme of their own' below) and that is in a no-base class | the scheme-less and
+   same-scheme reference classes against a special non-file base with a host (in_class_relative_s, block
+   'special bases').
+   It contains in_proved_class2 (C01_class3_contains_class2).
+   ONE base relation: base_rel3 = no base on both sides, or a pair in good_base = `related` and spec_base_ok
+   (lower-case scheme, no '/' inside a path segment of the Standard's record).
+   ONE host hypothesis: host_hyp3 = on the one string class_host_query says the class applies a host
+   parser to, the model's host function of that kind and the Standard's host parser agree
+   (host_agree for isOpaque = true, host_agree_sp for isOpaque = false; nothing for the other classes).
+   Outcome agree_good: the Standard succeeds -> its record meets spec_base_ok again, and the model answers
+   Overflow with the Standard's href beyond u32::MAX bytes or succeeds with a `related` record - so a
+   successful pair of results is a good_base pair again and the theorem applies to its own results
+   (C01_partial3_chains);  the Standard fails -> the model returns Err. *)
+Theorem C01_class3_contains_class2 : forall sbase input,
+  in_proved_class2 sbase input = true -> in_proved_class3 sbase input = true.
+Proof. exact in_proved_class3_of2. Qed.
+Print Assumptions C01_class3_contains_class2.
+
+Theorem C01_partial_related3 : forall dbg hp hpo hd shp shs input base sbase,
+  usv_list input -> base_rel3 dbg shs base sbase -> in_proved_class3 sbase input = true ->
+  host_hyp3 hp hpo hd shp shs sbase input ->
+  agree_good dbg shs (parse_url dbg hp hpo hd None base input) (spec_basic_url_parse shp input sbase).
+Proof. exact partial_equivalence_good3. Qed.
+Check C01_partial_related3 : forall dbg hp hpo hd shp shs input base sbase,
+  usv_list input ->
+  match base, sbase with
+  | None, None => True
+  | Some b, Some sb => related dbg shs b sb /\ spec_base_ok sb = true
+  | _, _ => False
+  end ->
+  in_proved_class3 sbase input = true ->
+  match class_host_query sbase input with
+  | Some (true, s) => host_agree hpo hd shp shs s
+  | Some (false, s) => host_agree_sp hp hd shp shs s
+  | None => True
+  end ->
+  match spec_basic_url_parse shp input sbase with
+  | BDone su => spec_base_ok su = true
+                /\ ((parse_url dbg hp hpo hd None base input = PErr Overflow /\ U32_MAX_P < nlen (get_href shs su))
+                    \/ exists u, parse_url dbg hp hpo hd None base input = POk u /\ related dbg shs u su)
+  | BFailure _ => exists e, parse_url dbg hp hpo hd None base input = PErr e
+  | BOutOfFuel => False
+  end.
+Print Assumptions C01_partial_related3.
+
+(* a successful pair of results is a base pair of the theorem again *)
+Theorem C01_partial3_chains : forall dbg shs m su u,
+  agree_good dbg shs m (BDone su) -> m = POk u -> base_rel3 dbg shs (Some u) (Some su).
+Proof. exact agree_good_chain. Qed.
+Print Assumptions C01_partial3_chains.
+
+(* C01_statement restricted to in_proved_class3, in the form of C01_partial / C01_partial_strict *)
+Theorem C01_partial3 : forall dbg hp hpo hd shp shs input base sbase,
+  usv_list input -> base_rel3 dbg shs base sbase -> in_proved_class3 sbase input = true ->
+  host_hyp3 hp hpo hd shp shs sbase input ->
+  agree dbg shs (parse_url dbg hp hpo hd None base input) (spec_basic_url_parse shp input sbase).
+Proof. exact partial_equivalence3. Qed.
+Print Assumptions C01_partial3.
+
+Theorem C01_partial_strict3 : forall dbg hp hpo hd shp shs input base sbase,
+  usv_list input -> base_rel3 dbg shs base sbase -> in_proved_class3 sbase input = true ->
+  host_hyp3 hp hpo hd shp shs sbase input ->
+  agree_strict dbg shs (parse_url dbg hp hpo hd None base input) (spec_basic_url_parse shp input sbase).
+Proof. exact partial_equivalence_strict3. Qed.
+Check C01_partial_strict3 : forall dbg hp hpo hd shp shs input base sbase,
+  usv_list input -> base_rel3 dbg shs base sbase -> in_proved_class3 sbase input = true ->
+  host_hyp3 hp hpo hd shp shs sbase input ->
+  match spec_basic_url_parse shp input sbase with
+  | BDone su => (parse_url dbg hp hpo hd None base input = PErr Overflow /\ U32_MAX_P < nlen (get_href shs su))
+                \/ exists u, parse_url dbg hp hpo hd None base input = POk u
+                             /\ api_of_model dbg u = Some (spec_api_list shs su)
+  | BFailure _ => exists e, parse_url dbg hp hpo hd None base input = PErr e
+  | BOutOfFuel => False
+  end.
+Print Assumptions C01_partial_strict3.
+
+(* the same with a UTF-8 encoding override *)
+Theorem C01_partial_related3_utf8_override : forall dbg hp hpo hd shp shs input base sbase,
+  usv_list input -> base_rel3 dbg shs base sbase -> in_proved_class3 sbase input = true ->
+  host_hyp3 hp hpo hd shp shs sbase input ->
+  agree_good dbg shs (parse_url dbg hp hpo hd (Some utf8_encode) base input) (spec_basic_url_parse shp input sbase).
+Proof. exact partial_equivalence_good3_utf8. Qed.
+Print Assumptions C01_partial_related3_utf8_override.
+
+(* the host hypothesis holds for the host model as it is - Host::parse, Host::parse_opaque, Display
+   (Model/Host.v; property C09) - against the Standard's host parser and serializer
+   (Spec/WhatwgHostParse.v) with the same domain-to-ASCII oracle on both sides, on every scalar-value
+   input, as soon as the oracle's outputs are ASCII outside the deny list (first clause of IdnaOK) *)
+Theorem C01_host_hyp3_model : forall idna, (forall bs d, idna bs = Some d -> Forall dom_char_ok d) ->
+  forall sbase input, usv_list input ->
+  host_hyp3 (host_parse idna) host_parse_opaque host_display (spec_host_parser idna) spec_host_serializer sbase input.
+Proof. exact host_hyp3_model. Qed.
+Print Assumptions C01_host_hyp3_model.
+
+(* hence, for the parser model with the host model plugged in against the Standard's parser with the
+   Standard's host parser: C01_statement restricted to in_proved_class3 relative to IdnaOK idna ONLY
+   (C09_spec_host_parser / C09_spec_host_serializer say in addition that the Standard's host parser and
+   serializer ARE the host model read through host_to_spec / spec_of_host, relative to the same IdnaOK) *)
+Theorem C01_partial_model : forall dbg idna, IdnaOK idna -> forall input base sbase,
+  usv_list input -> base_rel3 dbg spec_host_serializer base sbase -> in_proved_class3 sbase input = true ->
+  agree_good dbg spec_host_serializer
+    (parse_url dbg (host_parse idna) host_parse_opaque host_display None base input)
+    (spec_basic_url_parse (spec_host_parser idna) input sbase).
+Proof. exact partial_model. Qed.
+Check C01_partial_model : forall dbg idna, IdnaOK idna -> forall input base sbase,
+  usv_list input -> base_rel3 dbg spec_host_serializer base sbase -> in_proved_class3 sbase input = true ->
+  let m := parse_url dbg (host_parse idna) host_parse_opaque host_display None base input in
+  match spec_basic_url_parse (spec_host_parser idna) input sbase with
+  | BDone su => spec_base_ok su = true
+                /\ ((m = PErr Overflow /\ U32_MAX_P < nlen (get_href spec_host_serializer su))
+                    \/ exists u, m = POk u /\ related dbg spec_host_serializer u su)
+  | BFailure _ => exists e, m = PErr e
+  | BOutOfFuel => False
+  end.
+Print Assumptions C01_partial_model.
+
+Theorem C01_partial_model_utf8_override : forall dbg idna, IdnaOK idna -> forall input base sbase,
+  usv_list input -> base_rel3 dbg spec_host_serializer base sbase -> in_proved_class3 sbase input = true ->
+  agree_good dbg spec_host_serializer
+    (parse_url dbg (host_parse idna) host_parse_opaque host_display (Some utf8_encode) base input)
+    (spec_basic_url_parse (spec_host_parser idna) input sbase).
+Proof. exact partial_model_utf8. Qed.
+Print Assumptions C01_partial_model_utf8_override.
+
+(* non-vacuity, with the host model and an oracle meeting IdnaOK (identity on clean ASCII): the theorem
+   applied three times in a row to its own results -
+   " N://u@H.x:080/a/b/c?q" (no base, authority class) -> n://u@H.x:80/a/b/c?q ;
+   "../d/./e#f" against that result (path-relative class) -> n://u@H.x:80/a/d/e#f ;
+   "?z" against that result (query-only class) -> n://u@H.x:80/a/d/e?z ;
+   and "hTTp:\\ExAmple.com:80/x/../y" (no base, special class) is in in_proved_class3 with a host query of
+   the other kind (isOpaque = false) *)
+Example C01_partial_model_nonvacuous :
+  let idna := ex_idna_clean in
+  let shp := spec_host_parser idna in
+  let P base i := parse_url true (host_parse idna) host_parse_opaque host_display None base i in
+  let S sbase i := spec_basic_url_parse shp i sbase in
+  let i1 := [32; 78; 58; 47; 47; 117; 64; 72; 46; 120; 58; 48; 56; 48; 47; 97; 47; 98; 47; 99; 63; 113] in
+  let i2 := [46; 46; 47; 100; 47; 46; 47; 101; 35; 102] in
+  let i3 := [63; 122] in
+  let i4 := [104; 84; 84; 112; 58; 92; 92; 101; 120; 97; 109; 112; 108; 101; 46; 99; 111; 109; 58; 56; 48; 47; 120; 47; 46; 46; 47; 121] in
+  IdnaOK idna
+  /\ in_proved_class3 None i1 = true /\ class_host_query None i1 = Some (true, [72; 46; 120])
+  /\ match P None i1, S None i1 with
+     | POk u1, BDone su1 =>
+         q_href u1 = [110; 58; 47; 47; 117; 64; 72; 46; 120; 58; 56; 48; 47; 97; 47; 98; 47; 99; 63; 113]
+         /\ in_proved_class3 (Some su1) i2 = true /\ class_host_query (Some su1) i2 = None
+         /\ match P (Some u1) i2, S (Some su1) i2 with
+            | POk u2, BDone su2 =>
+                q_href u2 = [110; 58; 47; 47; 117; 64; 72; 46; 120; 58; 56; 48; 47; 97; 47; 100; 47; 101; 35; 102]
+                /\ in_proved_class3 (Some su2) i3 = true
+                /\ match P (Some u2) i3, S (Some su2) i3 with
+                   | POk u3, BDone su3 =>
+                       q_href u3 = [110; 58; 47; 47; 117; 64; 72; 46; 120; 58; 56; 48; 47; 97; 47; 100; 47; 101; 63; 122]
+                       /\ api_of_model true u3 = Some (spec_api_list spec_host_serializer su3)
+                   | _, _ => False
+                   end
+            | _, _ => False
+            end
+     | _, _ => False
+     end
+  /\ in_proved_class3 None i4 = true
+  /\ class_host_query None i4 = Some (false, [101; 120; 97; 109; 112; 108; 101; 46; 99; 111; 109])
+  /\ match P None i4, S None i4 with
+     | POk u, BDone su => q_href u = [104; 116; 116; 112; 58; 47; 47; 101; 120; 97; 109; 112; 108; 101; 46; 99; 111; 109; 47; 121]
+                          /\ api_of_model true u = Some (spec_api_list spec_host_serializer su)
+     | _, _ => False
+     end.
+Proof. cbv zeta. split; [exact ex_idna_clean_ok|]. vm_compute. repeat split. Qed.
+
+(* ===== coverage relative to Known_C01 (task c01asm) ===== *)
+From RU Require Import Proofs.C01_EqCover.
+
+(* no scheme and no base: failure on both sides (the model: ParseError::RelativeUrlWithoutBase); part of
+   in_proved_class3 None *)
+Theorem C01_eq_noscheme_nobase : forall dbg hp hpo hd ovr shp input,
+  in_class_noscheme_nobase input = true ->
+  (exists u, spec_basic_url_parse shp input None = BFailure u)
+  /\ parse_url dbg hp hpo hd ovr None input = PErr RelativeUrlWithoutBase.
+Proof. exact class_noscheme_nobase. Qed.
+Print Assumptions C01_eq_noscheme_nobase.
+
+(* the exclusions of the three non-special no-base classes lie inside Known_C01: authority exactly ":@"
+   needs ":@" in the text (class 4), a port followed by a backslash needs a backslash (class 3), a ".."
+   meeting a drive-letter-shaped segment needs a drive-letter-shaped piece in the raw text (class 2; without
+   backslashes the Standard's non-special path state is its special one, so the raw-text lemma of
+   C01_special_class_complete applies) *)
+Theorem C01_nonspecial_classes_complete : forall input sch R,
+  spec_scheme (spec_clean input) = Some (sch, R) -> is_special_scheme sch = false -> known_c01 None input = 0 ->
+  in_class_opaque input || in_class_pathonly input || in_class_authority input = true.
+Proof. exact nonspecial_nobase_covers. Qed.
+Print Assumptions C01_nonspecial_classes_complete.
+
+(* hence, without a base, the proved classes contain EVERY input outside Known_C01 *)
+Theorem C01_class3_complete_nobase : forall input,
+  known_c01 None input = 0 -> in_proved_class3 None input = true.
+Proof. exact nobase_covers. Qed.
+Print Assumptions C01_class3_complete_nobase.
+
+(* and against a good_base pair with a non-special scheme (opaque path or not) they contain every
+   scheme-less reference outside Known_C01 - the drive-letter-shaped segments of the Standard's base record
+   that the path-relative class must avoid show in the path of the model's base record (Known_C01 class 2
+   reads the base path) *)
+Theorem C01_class3_complete_nonspecial_base : forall dbg shs b sb input,
+  good_base dbg shs b sb -> is_special_scheme (su_scheme sb) = false ->
+  spec_scheme (spec_clean input) = None -> known_c01 (Some b) input = 0 ->
+  in_proved_class3 (Some sb) input = true.
+Proof. exact nonspecial_base_covers. Qed.
+Print Assumptions C01_class3_complete_nonspecial_base.
+
+(* C01_statement for base = None, every input: outside Known_C01 the Standard succeeds -> the model succeeds
+   with a `related` record (same ten API strings; a good base again) or answers Overflow and the Standard's
+   href exceeds u32::MAX bytes; the Standard fails -> the model returns Err.  What separates this from the
+   base = None instance of C01_statement: the host functions are abstract with the one-string hypothesis
+   host_hyp3 (next theorem: discharged for the host model relative to IdnaOK), the ten strings are read
+   through api_of_model (inside `related`), Overflow is a named outcome, usv_list input (Rust &str). *)
+Theorem C01_statement_nobase : forall dbg hp hpo hd shp shs input,
+  usv_list input -> known_c01 None input = 0 -> host_hyp3 hp hpo hd shp shs None input ->
+  agree_good dbg shs (parse_url dbg hp hpo hd None None input) (spec_basic_url_parse shp input None).
+Proof. exact statement_nobase. Qed.
+Print Assumptions C01_statement_nobase.
+
+Theorem C01_statement_nobase_model : forall dbg idna, IdnaOK idna -> forall input,
+  usv_list input -> known_c01 None input = 0 ->
+  agree_good dbg spec_host_serializer
+    (parse_url dbg (host_parse idna) host_parse_opaque host_display None None input)
+    (spec_basic_url_parse (spec_host_parser idna) input None).
+Proof. exact statement_nobase_model. Qed.
+Check C01_statement_nobase_model : forall dbg idna, IdnaOK idna -> forall input,
+  usv_list input -> known_c01 None input = 0 ->
+  let m := parse_url dbg (host_parse idna) host_parse_opaque host_display None None input in
+  match spec_basic_url_parse (spec_host_parser idna) input None with
+  | BDone su => spec_base_ok su = true
+                /\ ((m = PErr Overflow /\ U32_MAX_P < nlen (get_href spec_host_serializer su))
+                    \/ exists u, m = POk u /\ related dbg spec_host_serializer u su)
+  | BFailure _ => exists e, m = PErr e
+  | BOutOfFuel => False
+  end.
+Print Assumptions C01_statement_nobase_model.
+
+(* C01_statement for a good_base pair with a non-special scheme and a scheme-less reference *)
+Theorem C01_statement_nonspecial_base : forall dbg hp hpo hd shp shs b sb input,
+  usv_list input -> good_base dbg shs b sb -> is_special_scheme (su_scheme sb) = false ->
+  spec_scheme (spec_clean input) = None -> known_c01 (Some b) input = 0 ->
+  host_hyp3 hp hpo hd shp shs (Some sb) input ->
+  agree_good dbg shs (parse_url dbg hp hpo hd None (Some b) input) (spec_basic_url_parse shp input (Some sb)).
+Proof. exact statement_nonspecial_base. Qed.
+Print Assumptions C01_statement_nonspecial_base.
+
+Theorem C01_statement_nonspecial_base_model : forall dbg idna, IdnaOK idna -> forall b sb input,
+  usv_list input -> good_base dbg spec_host_serializer b sb -> is_special_scheme (su_scheme sb) = false ->
+  spec_scheme (spec_clean input) = None -> known_c01 (Some b) input = 0 ->
+  agree_good dbg spec_host_serializer
+    (parse_url dbg (host_parse idna) host_parse_opaque host_display None (Some b) input)
+    (spec_basic_url_parse (spec_host_parser idna) input (Some sb)).
+Proof. exact statement_nonspecial_base_model. Qed.
+Print Assumptions C01_statement_nonspecial_base_model.
+
+(* non-vacuity: the inputs of C01_partial_model_nonvacuous are outside Known_C01 (also against the parse
+   result as base), "x" without base is in the no-scheme class and fails on both sides; the premises are
+   needed: "n://:@/", "n://h:8\" and "n:/C|/.." are inside Known_C01 (C01_known_classes) and the sides differ
+   on them (C01_eq_authority_nonvacuous, C01_eq_pathonly_nonvacuous) *)
+Example C01_statement_nobase_nonvacuous :
+  let idna := ex_idna_clean in
+  let shp := spec_host_parser idna in
+  let P base i := parse_url true (host_parse idna) host_parse_opaque host_display None base i in
+  let i1 := [32; 78; 58; 47; 47; 117; 64; 72; 46; 120; 58; 48; 56; 48; 47; 97; 47; 98; 47; 99; 63; 113] in
+  let i2 := [46; 46; 47; 100; 47; 46; 47; 101; 35; 102] in
+  let i4 := [104; 84; 84; 112; 58; 92; 92; 101; 120; 97; 109; 112; 108; 101; 46; 99; 111; 109; 58; 56; 48; 47; 120; 47; 46; 46; 47; 121] in
+  known_c01 None i1 = 0 /\ known_c01 None i4 = 0 /\ known_c01 None [120] = 0
+  /\ in_class_noscheme_nobase [120] = true
+  /\ match P None [120], spec_basic_url_parse shp [120] None with PErr _, BFailure _ => True | _, _ => False end
+  /\ match P None i1, spec_basic_url_parse shp i1 None with
+     | POk u1, BDone su1 => known_c01 (Some u1) i2 = 0 /\ is_special_scheme (su_scheme su1) = false
+                            /\ spec_scheme (spec_clean i2) = None
+     | _, _ => False
+     end.
+Proof. vm_compute. repeat split. Qed.
+
+(* ===== references with a scheme of their own, when a base is given (task c01asm) ===== *)
+From RU Require Import Proofs.C01_EqAbs.
+
+(* the Standard's side: for a non-special scheme the result is a function of (scheme, text after ':')
+   alone, whatever the base *)
+Theorem C01_nonspecial_any_base : forall shp base input sch R,
+  spec_scheme (spec_clean input) = Some (sch, R) -> is_special_scheme sch = false ->
+  outcome_is (spec_basic_url_parse shp input base) (nonspecial_result shp sch R).
+Proof. exact spec_nonspecial_any. Qed.
+Print Assumptions C01_nonspecial_any_base.
+
+(* base_ignored sbase sch: sch is not "file", and it is non-special or not the scheme of the base.  Then the
+   Standard's parser returns what it returns without base (same record, or failure on both), and parser.rs
+   does literally the same call (parse_non_special / after_double_slash) *)
+Theorem C01_base_ignored_spec : forall shp sbase input sch R,
+  spec_scheme (spec_clean input) = Some (sch, R) -> base_ignored sbase sch = true ->
+  outcome_eq (spec_basic_url_parse shp input sbase) (spec_basic_url_parse shp input None).
+Proof. exact spec_base_ignored. Qed.
+Print Assumptions C01_base_ignored_spec.
+
+Theorem C01_base_ignored_model : forall dbg hp hpo hd ovr b sb shs input sch R,
+  related dbg shs b sb -> spec_scheme (spec_clean input) = Some (sch, R) -> base_ignored (Some sb) sch = true ->
+  parse_url dbg hp hpo hd ovr (Some b) input = parse_url dbg hp hpo hd ovr None input.
+Proof. exact model_base_ignored. Qed.
+Print Assumptions C01_base_ignored_model.
+
+(* coverage: against ANY good_base pair (special, file and opaque-path bases included) a reference with a
+   non-special scheme, or with a special scheme other than the scheme of the base, outside Known_C01 is in
+   in_proved_class3 *)
+Theorem C01_class3_complete_own_scheme : forall sb b input sch R,
+  spec_scheme (spec_clean input) = Some (sch, R) ->
+  is_special_scheme sch = false \/ list_eqb (su_scheme sb) sch = false ->
+  known_c01 (Some b) input = 0 -> in_proved_class3 (Some sb) input = true.
+Proof. exact own_scheme_base_covers. Qed.
+Print Assumptions C01_class3_complete_own_scheme.
+
+(* hence C01_statement for these (base, reference) pairs *)
+Theorem C01_statement_own_scheme_base : forall dbg hp hpo hd shp shs b sb input sch R,
+  usv_list input -> good_base dbg shs b sb -> spec_scheme (spec_clean input) = Some (sch, R) ->
+  is_special_scheme sch = false \/ list_eqb (su_scheme sb) sch = false ->
+  known_c01 (Some b) input = 0 ->
+  host_hyp3 hp hpo hd shp shs (Some sb) input ->
+  agree_good dbg shs (parse_url dbg hp hpo hd None (Some b) input) (spec_basic_url_parse shp input (Some sb)).
+Proof. exact statement_own_scheme_base. Qed.
+Print Assumptions C01_statement_own_scheme_base.
+
+Theorem C01_statement_own_scheme_base_model : forall dbg idna, IdnaOK idna -> forall b sb input sch R,
+  usv_list input -> good_base dbg spec_host_serializer b sb -> spec_scheme (spec_clean input) = Some (sch, R) ->
+  is_special_scheme sch = false \/ list_eqb (su_scheme sb) sch = false ->
+  known_c01 (Some b) input = 0 ->
+  agree_good dbg spec_host_serializer
+    (parse_url dbg (host_parse idna) host_parse_opaque host_display None (Some b) input)
+    (spec_basic_url_parse (spec_host_parser idna) input (Some sb)).
+Proof. exact statement_own_scheme_base_model. Qed.
+Print Assumptions C01_statement_own_scheme_base_model.
+
+(* non-vacuity: the parse result of "http://example.com/a" (a special base, obtained from the theorem itself) as
+   base; "https://h.x/p", "n://H/q" and "mailto:z" against it are in in_proved_class3, outside Known_C01, the host
+   query is the one of the no-base class, and both sides agree; "http:b" (same scheme as the base) is not
+   in in_class_abs_base - there the base is consulted (it is in in_class_same_path_s, block 'special bases') *)
+Example C01_own_scheme_nonvacuous :
+  let idna := ex_idna_clean in
+  let shp := spec_host_parser idna in
+  let P base i := parse_url true (host_parse idna) host_parse_opaque host_display None base i in
+  let S sbase i := spec_basic_url_parse shp i sbase in
+  let i0 := [104; 116; 116; 112; 58; 47; 47; 101; 120; 97; 109; 112; 108; 101; 46; 99; 111; 109; 47; 97] in
+  let i1 := [104; 116; 116; 112; 115; 58; 47; 47; 104; 46; 120; 47; 112] in
+  let i2 := [110; 58; 47; 47; 72; 47; 113] in
+  let i3 := [109; 97; 105; 108; 116; 111; 58; 122] in
+  let i4 := [104; 116; 116; 112; 58; 98] in
+  match P None i0, S None i0 with
+  | POk u0, BDone su0 =>
+      in_proved_class3 (Some su0) i1 = true /\ in_proved_class3 (Some su0) i2 = true
+      /\ in_proved_class3 (Some su0) i3 = true /\ in_class_abs_base su0 i4 = false
+      /\ known_c01 (Some u0) i1 = 0 /\ known_c01 (Some u0) i2 = 0 /\ known_c01 (Some u0) i3 = 0
+      /\ class_host_query (Some su0) i1 = Some (false, [104; 46; 120])
+      /\ class_host_query (Some su0) i2 = Some (true, [72])
+      /\ match P (Some u0) i1, S (Some su0) i1 with
+         | POk u, BDone su => q_href u = i1 /\ api_of_model true u = Some (spec_api_list spec_host_serializer su)
+         | _, _ => False end
+      /\ match P (Some u0) i2, S (Some su0) i2 with
+         | POk u, BDone su => q_href u = i2 /\ api_of_model true u = Some (spec_api_list spec_host_serializer su)
+         | _, _ => False end
+      /\ match P (Some u0) i3, S (Some su0) i3 with
+         | POk u, BDone su => q_href u = i3 /\ api_of_model true u = Some (spec_api_list spec_host_serializer su)
+         | _, _ => False end
+  | _, _ => False
+  end.
+Proof. vm_compute. repeat split. Qed.
+
+(* ===== special bases (task c01asm) ===== *)
+From RU Require Import Proofs.C01_EqSpBase.
+
+(* Scheme-less references against a `related` base with a special non-file scheme (http, https, ws, wss, ftp):
+   the Standard's no scheme -> relative -> relative slash states for a special base ('\' counts as '/'),
+   then the special authority ignore slashes / authority states, or the special path state ('/' and '\' as
+   separators) on the segments kept of the base; parser.rs: parse_relative with SchemeType::SpecialNotFile -
+   after_double_slash on "scheme:" of the base, resp. pop_path / parse_path / with_query_and_fragment. *)
+
+(* (c) two leading '/' or '\' (any mix), then any number more: "//host", "\\host", "/\/host" ... - the
+   authority is parsed with the scheme of the base exactly as in C01_eq_special.  Base: any `related` pair,
+   Standard record not opaque, special, not file, scheme lower-case.  Host functions abstract,
+   host_agree_sp on the one string rel_host_text_s input.  Only exclusion: F-C01-9 in the path. *)
+Theorem C01_eq_rel_authority_s : forall dbg hp hpo hd shp shs input b sb,
+  usv_list input -> related dbg shs b sb -> scheme_canon (su_scheme sb) = true ->
+  in_class_rel_authority_s sb input = true ->
+  host_agree_sp hp hd shp shs (rel_host_text_s input) ->
+  agree_rel_strict dbg shs (parse_url dbg hp hpo hd None (Some b) input) (spec_basic_url_parse shp input (Some sb)).
+Proof. exact class_rel_authority_s. Qed.
+Print Assumptions C01_eq_rel_authority_s.
+
+(* (a) exactly one leading '/' or '\': the authority of the base is kept byte for byte, the path replaced.
+   sp_base_ok sb (inside the recogniser): not opaque, special, not file, and the Standard's record HAS a host -
+   true of every parse result with a special scheme. *)
+Theorem C01_eq_rel_abs_s : forall dbg hp hpo hd shp shs input b sb,
+  usv_list input -> related dbg shs b sb -> scheme_canon (su_scheme sb) = true ->
+  in_class_rel_abs_s sb input = true ->
+  exists su, spec_basic_url_parse shp input (Some sb) = BDone su /\ spec_base_ok su = true
+    /\ agree_rel_strict dbg shs (parse_url dbg hp hpo hd None (Some b) input) (BDone su).
+Proof. exact class_rel_abs_s. Qed.
+Print Assumptions C01_eq_rel_abs_s.
+
+(* (b) path-relative: pop_path on the serialized base path = the Standard's shorten (never a drive letter
+   exception: the scheme is not file), then the special path state on the merged path *)
+Theorem C01_eq_rel_path_s : forall dbg hp hpo hd shp shs input b sb,
+  usv_list input -> related dbg shs b sb -> spec_base_ok sb = true ->
+  in_class_rel_path_s sb input = true ->
+  exists su, spec_basic_url_parse shp input (Some sb) = BDone su /\ spec_base_ok su = true
+    /\ agree_rel_strict dbg shs (parse_url dbg hp hpo hd None (Some b) input) (BDone su).
+Proof. exact class_rel_path_s. Qed.
+Print Assumptions C01_eq_rel_path_s.
+
+(* coverage: against a good_base pair whose Standard record meets sp_base_ok every scheme-less reference
+   outside Known_C01 is in in_proved_class3 (the exclusion F-C01-9 is Known_C01 class 2; backslashes and
+   ":@" need no exclusion for special schemes) *)
+Theorem C01_class3_complete_special_base : forall dbg shs b sb input,
+  good_base dbg shs b sb -> sp_base_ok sb = true ->
+  spec_scheme (spec_clean input) = None -> known_c01 (Some b) input = 0 ->
+  in_proved_class3 (Some sb) input = true.
+Proof. exact special_base_covers. Qed.
+Print Assumptions C01_class3_complete_special_base.
+
+Theorem C01_statement_special_base : forall dbg hp hpo hd shp shs b sb input,
+  usv_list input -> good_base dbg shs b sb -> sp_base_ok sb = true ->
+  spec_scheme (spec_clean input) = None -> known_c01 (Some b) input = 0 ->
+  host_hyp3 hp hpo hd shp shs (Some sb) input ->
+  agree_good dbg shs (parse_url dbg hp hpo hd None (Some b) input) (spec_basic_url_parse shp input (Some sb)).
+Proof. exact statement_special_base. Qed.
+Print Assumptions C01_statement_special_base.
+
+Theorem C01_statement_special_base_model : forall dbg idna, IdnaOK idna -> forall b sb input,
+  usv_list input -> good_base dbg spec_host_serializer b sb -> sp_base_ok sb = true ->
+  spec_scheme (spec_clean input) = None -> known_c01 (Some b) input = 0 ->
+  agree_good dbg spec_host_serializer
+    (parse_url dbg (host_parse idna) host_parse_opaque host_display None (Some b) input)
+    (spec_basic_url_parse (spec_host_parser idna) input (Some sb)).
+Proof. exact statement_special_base_model. Qed.
+Print Assumptions C01_statement_special_base_model.
+
+(* non-vacuity: the parse result of "http://example.com/a/b/c?q" as base (sp_base_ok holds of it);
+   "\x\..\y" -> http://example.com/y ;  "../d/./e#f" -> http://example.com/a/d/e#f ;
+   "/\h.x:80\p" -> http://h.x/p  (default port dropped, host query of kind isOpaque = false);
+   all in in_proved_class3 and outside Known_C01, both sides agree.  The exclusion is necessary: against
+   http://example.com/C|/x the reference "../y" is inside Known_C01 (class 2) and the sides do differ. *)
+Example C01_special_base_nonvacuous :
+  let idna := ex_idna_clean in
+  let shp := spec_host_parser idna in
+  let P base i := parse_url true (host_parse idna) host_parse_opaque host_display None base i in
+  let S sbase i := spec_basic_url_parse shp i sbase in
+  let i0 := [104; 116; 116; 112; 58; 47; 47; 101; 120; 97; 109; 112; 108; 101; 46; 99; 111; 109; 47; 97; 47; 98; 47; 99; 63; 113] in
+  let i1 := [92; 120; 92; 46; 46; 92; 121] in
+  let i2 := [46; 46; 47; 100; 47; 46; 47; 101; 35; 102] in
+  let i3 := [47; 92; 104; 46; 120; 58; 56; 48; 92; 112] in
+  let j0 := [104; 116; 116; 112; 58; 47; 47; 101; 120; 97; 109; 112; 108; 101; 46; 99; 111; 109; 47; 67; 124; 47; 120] in
+  let j1 := [46; 46; 47; 121] in
+  match P None i0, S None i0 with
+  | POk u0, BDone su0 =>
+      sp_base_ok su0 = true
+      /\ in_proved_class3 (Some su0) i1 = true /\ in_proved_class3 (Some su0) i2 = true /\ in_proved_class3 (Some su0) i3 = true
+      /\ known_c01 (Some u0) i1 = 0 /\ known_c01 (Some u0) i2 = 0 /\ known_c01 (Some u0) i3 = 0
+      /\ class_host_query (Some su0) i3 = Some (false, [104; 46; 120])
+      /\ match P (Some u0) i1, S (Some su0) i1 with
+         | POk u, BDone su => q_href u = [104; 116; 116; 112; 58; 47; 47; 101; 120; 97; 109; 112; 108; 101; 46; 99; 111; 109; 47; 121]
+                              /\ api_of_model true u = Some (spec_api_list spec_host_serializer su)
+         | _, _ => False end
+      /\ match P (Some u0) i2, S (Some su0) i2 with
+         | POk u, BDone su => q_href u = [104; 116; 116; 112; 58; 47; 47; 101; 120; 97; 109; 112; 108; 101; 46; 99; 111; 109; 47; 97; 47; 100; 47; 101; 35; 102]
+                              /\ api_of_model true u = Some (spec_api_list spec_host_serializer su)
+         | _, _ => False end
+      /\ match P (Some u0) i3, S (Some su0) i3 with
+         | POk u, BDone su => q_href u = [104; 116; 116; 112; 58; 47; 47; 104; 46; 120; 47; 112]
+                              /\ api_of_model true u = Some (spec_api_list spec_host_serializer su)
+         | _, _ => False end
+  | _, _ => False
+  end
+  /\ match P None j0, S None j0 with
+     | POk v0, BDone sv0 =>
+         known_c01 (Some v0) j1 = 2 /\ in_proved_class3 (Some sv0) j1 = false
+         /\ match P (Some v0) j1, S (Some sv0) j1 with
+            | POk u, BDone su => q_href u = [104; 116; 116; 112; 58; 47; 47; 101; 120; 97; 109; 112; 108; 101; 46; 99; 111; 109; 47; 67; 124; 47; 121]
+                                 /\ get_href spec_host_serializer su = [104; 116; 116; 112; 58; 47; 47; 101; 120; 97; 109; 112; 108; 101; 46; 99; 111; 109; 47; 121]
+            | _, _ => False end
+     | _, _ => False
+     end.
+Proof. vm_compute. repeat split. Qed.
+
+(* ---------- references that carry the scheme of the special base: "http:x", "http:/x", "http://x" ---------- *)
+(* two leading '/' or '\' after "sch:" (same_two_sl): the Standard reaches the special authority ignore slashes
+   state - directly on "//" (special relative or authority state), through the relative and relative slash
+   states otherwise -, parser.rs counts two slashes and calls after_double_slash: the base is ignored on both
+   sides, the outcome is the one without base (part of in_class_abs_base) *)
+Theorem C01_same_scheme_two_slashes_spec : forall shp sb input sch R,
+  spec_scheme (spec_clean input) = Some (sch, R) -> same_two_sl sb sch R = true ->
+  outcome_eq (spec_basic_url_parse shp input (Some sb)) (spec_basic_url_parse shp input None).
+Proof. exact spec_same_two_sl. Qed.
+Print Assumptions C01_same_scheme_two_slashes_spec.
+
+Theorem C01_same_scheme_two_slashes_model : forall dbg hp hpo hd ovr b input sch R,
+  spec_scheme (spec_clean input) = Some (sch, R) -> is_special_scheme sch = true -> list_eqb sch str_file = false ->
+  two_sl R = true ->
+  parse_url dbg hp hpo hd ovr (Some b) input = parse_url dbg hp hpo hd ovr None input.
+Proof. exact model_same_two_sl. Qed.
+Print Assumptions C01_same_scheme_two_slashes_model.
+
+(* "sch:/x" (one slash or backslash): special relative or authority -> relative -> relative slash -> path state;
+   parser.rs: parse_relative on the text after "sch:" *)
+Theorem C01_eq_same_abs_s : forall dbg hp hpo hd shp shs input b sb,
+  usv_list input -> related dbg shs b sb -> scheme_canon (su_scheme sb) = true ->
+  in_class_same_abs_s sb input = true ->
+  exists su, spec_basic_url_parse shp input (Some sb) = BDone su /\ spec_base_ok su = true
+    /\ agree_rel_strict dbg shs (parse_url dbg hp hpo hd None (Some b) input) (BDone su).
+Proof. exact class_same_abs_s. Qed.
+Print Assumptions C01_eq_same_abs_s.
+
+(* "sch:x": path-relative against the base - a ':' later in x does not start a scheme again *)
+Theorem C01_eq_same_path_s : forall dbg hp hpo hd shp shs input b sb,
+  usv_list input -> related dbg shs b sb -> spec_base_ok sb = true ->
+  in_class_same_path_s sb input = true ->
+  exists su, spec_basic_url_parse shp input (Some sb) = BDone su /\ spec_base_ok su = true
+    /\ agree_rel_strict dbg shs (parse_url dbg hp hpo hd None (Some b) input) (BDone su).
+Proof. exact class_same_path_s. Qed.
+Print Assumptions C01_eq_same_path_s.
+
+(* "sch:", "sch:?q[#f]", "sch:#f" (bare same-scheme references): the relative state at EOF / '?' / '#' - the base
+   without its fragment, resp. with the new query / fragment; parser.rs: the same three arms of parse_relative
+   the scheme-less references "", "?q", "#f" take *)
+From RU Require Import Proofs.C01_EqSpBare.
+Theorem C01_eq_same_bare : forall dbg hp hpo hd shp shs input b sb,
+  usv_list input -> related dbg shs b sb -> in_class_same_bare sb input = true ->
+  exists R, spec_basic_url_parse shp input (Some sb) = BDone (bare_result sb R)
+    /\ agree_rel_strict dbg shs (parse_url dbg hp hpo hd None (Some b) input) (BDone (bare_result sb R)).
+Proof. exact class_same_bare. Qed.
+Print Assumptions C01_eq_same_bare.
+
+(* ===== every base, every reference (task c01asm) ===== *)
+From RU Require Import Proofs.C01_EqShape.
+(* base_shape_ok sb: a special non-file record is not opaque and has a host (true of every parse result).
+   Against such a base EVERYTHING outside Known_C01 is in in_proved_class3: *)
+Theorem C01_class3_complete_base : forall dbg shs b sb input,
+  good_base dbg shs b sb -> base_shape_ok sb = true ->
+  known_c01 (Some b) input = 0 -> in_proved_class3 (Some sb) input = true.
+Proof. exact base_covers. Qed.
+Print Assumptions C01_class3_complete_base.
+
+(* C01_statement with a base (with C01_statement_nobase: all of C01_statement up to the named differences) *)
+Theorem C01_statement_base : forall dbg hp hpo hd shp shs b sb input,
+  usv_list input -> good_base dbg shs b sb -> base_shape_ok sb = true ->
+  known_c01 (Some b) input = 0 ->
+  host_hyp3 hp hpo hd shp shs (Some sb) input ->
+  agree_good dbg shs (parse_url dbg hp hpo hd None (Some b) input) (spec_basic_url_parse shp input (Some sb)).
+Proof. exact statement_base. Qed.
+Print Assumptions C01_statement_base.
+
+Theorem C01_statement_base_model : forall dbg idna, IdnaOK idna -> forall b sb input,
+  usv_list input -> good_base dbg spec_host_serializer b sb -> base_shape_ok sb = true ->
+  known_c01 (Some b) input = 0 ->
+  agree_good dbg spec_host_serializer
+    (parse_url dbg (host_parse idna) host_parse_opaque host_display None (Some b) input)
+    (spec_basic_url_parse (spec_host_parser idna) input (Some sb)).
+Proof. exact statement_base_model. Qed.
+Check C01_statement_base_model : forall dbg idna, IdnaOK idna -> forall b sb input,
+  usv_list input -> (related dbg spec_host_serializer b sb /\ spec_base_ok sb = true) -> base_shape_ok sb = true ->
+  known_c01 (Some b) input = 0 ->
+  let m := parse_url dbg (host_parse idna) host_parse_opaque host_display None (Some b) input in
+  match spec_basic_url_parse (spec_host_parser idna) input (Some sb) with
+  | BDone su => spec_base_ok su = true
+                /\ ((m = PErr Overflow /\ U32_MAX_P < nlen (get_href spec_host_serializer su))
+                    \/ exists u, m = POk u /\ related dbg spec_host_serializer u su)
+  | BFailure _ => exists e, m = PErr e
+  | BOutOfFuel => False
+  end.
+Print Assumptions C01_statement_base_model.
+
+(* non-vacuity: against the parse result of "http://example.com/a/b/c?q": "http:x/../y" -> http://example.com/a/b/y ;
+   "hTTp:\\z" -> http://example.com/z ;  "http:/\h.x/p" -> http://h.x/p (base ignored);  "http:foo:bar" ->
+   http://example.com/a/b/foo:bar (the second ':' starts no scheme);  "http:?z" (bare) -> http://example.com/a/b/c?z. *)
+Example C01_same_scheme_nonvacuous :
+  let idna := ex_idna_clean in
+  let shp := spec_host_parser idna in
+  let P base i := parse_url true (host_parse idna) host_parse_opaque host_display None base i in
+  let S sbase i := spec_basic_url_parse shp i sbase in
+  let i0 := [104; 116; 116; 112; 58; 47; 47; 101; 120; 97; 109; 112; 108; 101; 46; 99; 111; 109; 47; 97; 47; 98; 47; 99; 63; 113] in
+  let i1 := [104; 116; 116; 112; 58; 120; 47; 46; 46; 47; 121] in
+  let i2 := [104; 84; 84; 112; 58; 92; 122] in
+  let i3 := [104; 116; 116; 112; 58; 47; 92; 104; 46; 120; 47; 112] in
+  let i4 := [104; 116; 116; 112; 58; 102; 111; 111; 58; 98; 97; 114] in
+  let i5 := [104; 116; 116; 112; 58; 63; 122] in
+  match P None i0, S None i0 with
+  | POk u0, BDone su0 =>
+      base_shape_ok su0 = true
+      /\ in_proved_class3 (Some su0) i1 = true /\ in_proved_class3 (Some su0) i2 = true
+      /\ in_proved_class3 (Some su0) i3 = true /\ in_proved_class3 (Some su0) i4 = true
+      /\ in_class_same_bare su0 i1 = false /\ in_class_same_bare su0 i5 = true /\ in_proved_class3 (Some su0) i5 = true
+      /\ known_c01 (Some u0) i1 = 0 /\ known_c01 (Some u0) i2 = 0 /\ known_c01 (Some u0) i3 = 0 /\ known_c01 (Some u0) i4 = 0
+      /\ match P (Some u0) i1, S (Some su0) i1 with
+         | POk u, BDone su => q_href u = [104; 116; 116; 112; 58; 47; 47; 101; 120; 97; 109; 112; 108; 101; 46; 99; 111; 109; 47; 97; 47; 98; 47; 121]
+                              /\ api_of_model true u = Some (spec_api_list spec_host_serializer su)
+         | _, _ => False end
+      /\ match P (Some u0) i2, S (Some su0) i2 with
+         | POk u, BDone su => q_href u = [104; 116; 116; 112; 58; 47; 47; 101; 120; 97; 109; 112; 108; 101; 46; 99; 111; 109; 47; 122]
+                              /\ api_of_model true u = Some (spec_api_list spec_host_serializer su)
+         | _, _ => False end
+      /\ match P (Some u0) i3, S (Some su0) i3 with
+         | POk u, BDone su => q_href u = [104; 116; 116; 112; 58; 47; 47; 104; 46; 120; 47; 112]
+                              /\ api_of_model true u = Some (spec_api_list spec_host_serializer su)
+         | _, _ => False end
+      /\ match P (Some u0) i4, S (Some su0) i4 with
+         | POk u, BDone su => q_href u = [104; 116; 116; 112; 58; 47; 47; 101; 120; 97; 109; 112; 108; 101; 46; 99; 111; 109; 47; 97; 47; 98; 47; 102; 111; 111; 58; 98; 97; 114]
+                              /\ api_of_model true u = Some (spec_api_list spec_host_serializer su)
+         | _, _ => False end
+      /\ match P (Some u0) i5, S (Some su0) i5 with
+         | POk u, BDone su => q_href u = [104; 116; 116; 112; 58; 47; 47; 101; 120; 97; 109; 112; 108; 101; 46; 99; 111; 109; 47; 97; 47; 98; 47; 99; 63; 122]
+                              /\ api_of_model true u = Some (spec_api_list spec_host_serializer su)
+         | _, _ => False end
+  | _, _ => False
+  end.
+Proof. vm_compute. repeat split. Qed.
+
+(* ===== the closed statement (task c01asm) ===== *)
+(* base_shape_ok holds of every record the Standard returns in the proved classes when the base record met
+   it; so full_base = good_base + base_shape_ok is closed under the assembled theorem: *)
+Theorem C01_class3_result_shape : forall shp,
+  (forall input su, in_proved_nobase3 input = true ->
+     spec_basic_url_parse shp input None = BDone su -> base_shape_ok su = true)
+  /\ (forall input sb su, usv_list input -> spec_valid sb -> base_shape_ok sb = true ->
+        in_proved_class3 (Some sb) input = true ->
+        spec_basic_url_parse shp input (Some sb) = BDone su -> base_shape_ok su = true).
+Proof. intros shp. split; [exact (nobase_result_shape shp) | exact (base_result_shape shp)]. Qed.
+Print Assumptions C01_class3_result_shape.
+
+(* C01_statement in one theorem.  For base = None, or a pair in full_base = `related` + spec_base_ok +
+   base_shape_ok: EVERY scalar-value input outside Known_C01 -
+   the Standard succeeds -> its record meets spec_base_ok, and the model answers Overflow with the Standard's href
+   beyond u32::MAX bytes or succeeds with a `related` record (same ten API strings);  the Standard fails -> the
+   model returns Err;  and a successful pair of results is a full_base pair again (so the theorem covers
+   everything reachable from parse results by resolving references).  Host functions abstract with the
+   one-string hypothesis host_hyp3. *)
+Theorem C01_statement_all : forall dbg hp hpo hd shp shs input base sbase,
+  usv_list input -> full_rel dbg shs base sbase -> known_c01 base input = 0 ->
+  host_hyp3 hp hpo hd shp shs sbase input ->
+  agree_good dbg shs (parse_url dbg hp hpo hd None base input) (spec_basic_url_parse shp input sbase)
+  /\ (forall su u, spec_basic_url_parse shp input sbase = BDone su -> parse_url dbg hp hpo hd None base input = POk u ->
+        full_base dbg shs u su).
+Proof. exact statement_all. Qed.
+Print Assumptions C01_statement_all.
+
+(* the same for the parser model with the host model plugged in against the Standard's parser with the
+   Standard's host parser: relative to IdnaOK idna ONLY *)
+Theorem C01_statement_all_model : forall dbg idna, IdnaOK idna -> forall input base sbase,
+  usv_list input -> full_rel dbg spec_host_serializer base sbase -> known_c01 base input = 0 ->
+  agree_good dbg spec_host_serializer
+    (parse_url dbg (host_parse idna) host_parse_opaque host_display None base input)
+    (spec_basic_url_parse (spec_host_parser idna) input sbase)
+  /\ (forall su u, spec_basic_url_parse (spec_host_parser idna) input sbase = BDone su ->
+        parse_url dbg (host_parse idna) host_parse_opaque host_display None base input = POk u ->
+        full_base dbg spec_host_serializer u su).
+Proof. exact statement_all_model. Qed.
+Check C01_statement_all_model : forall dbg idna, IdnaOK idna -> forall input base sbase,
+  usv_list input ->
+  match base, sbase with
+  | None, None => True
+  | Some b, Some sb => (related dbg spec_host_serializer b sb /\ spec_base_ok sb = true) /\ base_shape_ok sb = true
+  | _, _ => False
+  end ->
+  known_c01 base input = 0 ->
+  let m := parse_url dbg (host_parse idna) host_parse_opaque host_display None base input in
+  match spec_basic_url_parse (spec_host_parser idna) input sbase with
+  | BDone su => spec_base_ok su = true
+                /\ ((m = PErr Overflow /\ U32_MAX_P < nlen (get_href spec_host_serializer su))
+                    \/ exists u, m = POk u /\ related dbg spec_host_serializer u su)
+  | BFailure _ => exists e, m = PErr e
+  | BOutOfFuel => False
+  end
+  /\ (forall su u, spec_basic_url_parse (spec_host_parser idna) input sbase = BDone su -> m = POk u ->
+        (related dbg spec_host_serializer u su /\ spec_base_ok su = true) /\ base_shape_ok su = true).
+Print Assumptions C01_statement_all_model.
+
+(* the same in the shape of C01_statement: its match, instantiated with the host model (host_parse idna,
+   host_parse_opaque, host_display), the Standard's host parser / serializer over the same oracle, and
+   api_of_model read as a total function; the one additional arm is the model's ParseError::Overflow against a
+   Standard result whose href exceeds u32::MAX bytes *)
+Theorem C01_statement_instance : forall dbg idna, IdnaOK idna -> forall input base sbase,
+  usv_list input -> full_rel dbg spec_host_serializer base sbase -> known_c01 base input = 0 ->
+  statement_shape dbg spec_host_serializer
+    (parse_url dbg (host_parse idna) host_parse_opaque host_display None base input)
+    (spec_basic_url_parse (spec_host_parser idna) input sbase).
+Proof. exact statement_instance. Qed.
+Check C01_statement_instance : forall dbg idna, IdnaOK idna -> forall input base sbase,
+  usv_list input -> full_rel dbg spec_host_serializer base sbase -> known_c01 base input = 0 ->
+  match parse_url dbg (host_parse idna) host_parse_opaque host_display None base input,
+        spec_basic_url_parse (spec_host_parser idna) input sbase with
+  | POk u, BDone su => api_total dbg u = spec_api_list spec_host_serializer su
+  | PErr Overflow, BDone su => U32_MAX_P < nlen (get_href spec_host_serializer su)
+  | PErr _, BFailure _ => True
+  | _, _ => False
+  end.
+Print Assumptions C01_statement_instance.
